@@ -1,12 +1,13 @@
 (* C03 — An attempt's reported result reflects what the test process actually did.
-   Statements only; proofs are in Proofs/Classify.v and Proofs/Retry.v.
+   Statements only; proofs are in Proofs/Classify.v, Proofs/Retry.v and Proofs/ClassifyUnit.v
+   (the tie to the unit state machine of Model/UnitTimers.v).
 
    One attempt is [attempt_result spawn_failed timed_out st child_errors leaked]:
    spawn_failed = the process could not be started; timed_out = nextest took the
    terminate-for-timeout path; st = the wait status; child_errors = reading the child's
    stdout/stderr failed; leaked = detect_fd_leaks' verdict. *)
-From NextestModel Require Import Base.Str Model.Backoff Model.Classify
-     Proofs.Backoff Proofs.Classify Proofs.Retry.
+From NextestModel Require Import Base.Str Model.Clocks Model.UnitTimers Proofs.UnitProps
+     Model.Backoff Model.Classify Proofs.Backoff Proofs.Classify Proofs.Retry Proofs.ClassifyUnit.
 Open Scope N_scope.
 
 (* success (PASS or LEAK) iff the process was started, was not terminated for a timeout, its
@@ -155,6 +156,99 @@ Theorem C03_detect_leak_unfixed_refuted :
 Proof. exact detect_leak_unfixed_refuted. Qed.
 Print Assumptions C03_detect_leak_unfixed_refuted.
 
+(* ---- the flags are not inputs: over histories of the unit state machine (Model/UnitTimers.v:
+   the wait loops of run_test_inner, terminate_child and detect_fd_leaks) ---------------------- *)
+
+(* Whatever the history (any pause table, any configuration, any event sequence from the spawn)
+   and whatever wait status [st] has the success bit the machine recorded, the result the machine
+   reports is [attempt_result] applied to the machine's own timed-out and leak flags; it is
+   TIMEOUT iff the terminate-for-timeout path was entered somewhere in the history; LEAK iff exit
+   0, no timeout termination, and the leak timer fired with a pipe still open; success iff exit 0
+   and no timeout termination. ([ph <> PTerminating TTimeout]: every state outside the timeout
+   call of terminate_child, in particular every final state.) *)
+Theorem C03_unit_result : forall tbl cfg es r st,
+  urun tbl cfg (uinit cfg) es = Ok r -> ph (fst r) <> PTerminating TTimeout ->
+  st_success st = exit_ok (fst r) ->
+  let res := attempt_result false (timed_out (fst r)) st false (UnitTimers.leaked (fst r)) in
+  ures_of res = Some (uresult (fst r)) /\
+  (res = Timeout <-> timeout_path tbl cfg (uinit cfg) es) /\
+  (res = Leak <->
+   st = Exited 0 /\ ~ timeout_path tbl cfg (uinit cfg) es /\ leak_path tbl cfg (uinit cfg) es) /\
+  (is_success res = true <-> st = Exited 0 /\ ~ timeout_path tbl cfg (uinit cfg) es).
+Proof. exact unit_result_classified. Qed.
+Print Assumptions C03_unit_result.
+
+(* "timeout iff nextest terminated it for exceeding its time limit": the timed-out flag is set
+   exactly when some prefix of the history ends in the running loop with the slow-timeout interval
+   due, the unit not yet timed out, and the expiry count reaching terminate-after ... *)
+Theorem C03_timeout_iff_unit : forall tbl cfg es r,
+  urun tbl cfg (uinit cfg) es = Ok r -> ph (fst r) <> PTerminating TTimeout ->
+  (timed_out (fst r) = true <->
+   exists es1 e es2 r1, es = es1 ++ e :: es2 /\ urun tbl cfg (uinit cfg) es1 = Ok r1 /\
+     e = FireInterval /\ ph (fst r1) = PRunning /\ slc_due (k_isl (ck (fst r1))) = true /\
+     timed_out (fst r1) = false /\ will_terminate cfg (hits (fst r1) + 1) = true).
+Proof. exact timed_out_iff_split. Qed.
+Print Assumptions C03_timeout_iff_unit.
+
+(* ... that step signals the process group with the configured method (SIGKILL for a zero grace
+   period, else SIGTERM) unless the child had already been reaped ... *)
+Theorem C03_timeout_path_terminates : forall tbl cfg s e r,
+  ustep tbl cfg s e = Ok r -> timeout_fire cfg s e ->
+  timeout_pending (fst r) /\
+  (reaped s = false -> In (OSignal (timeout_method cfg)) (snd r)) /\
+  (reaped s = true -> timed_out (fst r) = true).
+Proof. exact timeout_fire_signals. Qed.
+Print Assumptions C03_timeout_path_terminates.
+
+(* ... and it happens only with a time limit configured and after at least that much time *)
+Theorem C03_timeout_exceeded_limit : forall tbl cfg es r,
+  cfg_valid cfg -> urun tbl cfg (uinit cfg) es = Ok r ->
+  timeout_path tbl cfg (uinit cfg) es ->
+  exists ta, terminate_after cfg = Some ta /\ ta * period cfg <= real_time es.
+Proof. exact timeout_path_exceeds_limit. Qed.
+Print Assumptions C03_timeout_exceeded_limit.
+
+(* the leak flag: set exactly by the leak timer completing in detect_fd_leaks with a pipe still
+   open, which is never before the whole leak timeout has been spent there *)
+Theorem C03_unit_leaked_iff : forall tbl cfg es r,
+  urun tbl cfg (uinit cfg) es = Ok r ->
+  (UnitTimers.leaked (fst r) = true <->
+   exists es1 e es2 r1, es = es1 ++ e :: es2 /\ urun tbl cfg (uinit cfg) es1 = Ok r1 /\
+     e = FireLeak /\ ph (fst r1) = PExiting /\ slc_due (lsl (fst r1)) = true /\
+     fds_done (fst r1) = false).
+Proof. exact leaked_iff_split. Qed.
+Print Assumptions C03_unit_leaked_iff.
+
+Theorem C03_unit_leak_not_early : forall tbl cfg es r,
+  urun tbl cfg (uinit cfg) es = Ok r -> UnitTimers.leaked (fst r) = true ->
+  leak_timeout cfg <= exiting_time tbl cfg (uinit cfg) es.
+Proof. exact leaked_not_early. Qed.
+Print Assumptions C03_unit_leak_not_early.
+
+(* the success bit comes from a child-exit event of the history; a finished unit has reaped *)
+Theorem C03_unit_status_from_history : forall tbl cfg es r,
+  urun tbl cfg (uinit cfg) es = Ok r -> ph (fst r) = PDone ->
+  reaped (fst r) = true /\ In (ChildExit (exit_ok (fst r))) es.
+Proof. exact final_status_from_history. Qed.
+Print Assumptions C03_unit_status_from_history.
+
+(* ---- the two leak halves composed, over Classify's timed fd-event histories after the exit:
+   LEAK iff exit 0 (started, not timed out, output readable) and a handle is still open when the
+   leak timer fires; PASS iff exit 0 and all handles closed before it *)
+Theorem C03_leak_iff_history : forall sf to st errs timeout evs,
+  times_sorted 0 evs = true ->
+  (attempt_result sf to st errs (detect_leak timeout evs) = Leak <->
+   sf = false /\ to = false /\ errs = false /\ st = Exited 0 /\ open_at timeout evs).
+Proof. exact leak_iff_history. Qed.
+Print Assumptions C03_leak_iff_history.
+
+Theorem C03_pass_iff_history : forall sf to st errs timeout evs,
+  times_sorted 0 evs = true ->
+  (attempt_result sf to st errs (detect_leak timeout evs) = Pass <->
+   sf = false /\ to = false /\ errs = false /\ st = Exited 0 /\ ~ open_at timeout evs).
+Proof. exact pass_iff_history. Qed.
+Print Assumptions C03_pass_iff_history.
+
 (* ---- non-vacuity and regression witnesses (closed computations) *)
 Example C03_ex_results :
   attempt_result false false (Exited 0) false false = Pass
@@ -202,3 +296,47 @@ Example C03_ex_F2 :
   /\ detect_leak 100 [(30, FdData); (60, FdEof)] = false
   /\ detect_leak 100 [(300, FdEof)] = true /\ detect_leak 100 [] = true.
 Proof. repeat split; vm_compute; reflexivity. Qed.
+
+(* unit histories (empty pause table: no Stop/Continue in these histories).
+   period 10 ns x terminate-after 1, grace 0, leak timeout 5. *)
+Definition ex_tbl : ptable :=
+  {| t_run_stop := []; t_run_cont := []; t_term_stop := []; t_term_cont := [];
+     t_delay_stop := []; t_delay_cont := []; t_leak_stop := []; t_leak_cont := [] |}.
+Definition ex_cfg : ucfg := {| period := 10; terminate_after := Some 1; grace := 0; leak_timeout := 5 |}.
+Definition ex_final (es : list uevent) : option (phase * ures * bool * bool) :=
+  match urun ex_tbl ex_cfg (uinit ex_cfg) es with
+  | Ok r => Some (ph (fst r), uresult (fst r), timed_out (fst r), UnitTimers.leaked (fst r))
+  | Clocks.Panicked => None
+  end.
+
+Example C03_ex_unit_histories :
+  (* sleeps past the limit: SIGKILL, then reaped, pipes close => TIMEOUT *)
+  ex_final [Tick 10; FireInterval; ChildExit false; FdsDone] = Some (PDone, UTimeout, true, false)
+  (* the interval event before it is due is ignored; exit 0, pipes closed at once => PASS *)
+  /\ ex_final [Tick 9; FireInterval; FdsDone; ChildExit true] = Some (PDone, UPass, false, false)
+  (* exit 0, a descendant holds the pipe past the 5 ns leak timeout => LEAK *)
+  /\ ex_final [ChildExit true; Tick 5; FireLeak] = Some (PDone, ULeak, false, true)
+  (* the leak timer cannot fire early, and EOF before it => PASS *)
+  /\ ex_final [ChildExit true; Tick 4; FireLeak; FdsDone] = Some (PDone, UPass, false, false)
+  (* non-zero exit with a leak => FAIL (leak flag set) *)
+  /\ ex_final [ChildExit false; Tick 7; FireLeak] = Some (PDone, UFail, false, true).
+Proof. repeat split; vm_compute; reflexivity. Qed.
+
+Example C03_ex_unit_paths :
+  timeout_path ex_tbl ex_cfg (uinit ex_cfg) [Tick 10; FireInterval; ChildExit false; FdsDone]
+  /\ ~ timeout_path ex_tbl ex_cfg (uinit ex_cfg) [Tick 9; FireInterval; FdsDone; ChildExit true]
+  /\ leak_path ex_tbl ex_cfg (uinit ex_cfg) [ChildExit true; Tick 5; FireLeak]
+  /\ ~ leak_path ex_tbl ex_cfg (uinit ex_cfg) [ChildExit true; Tick 4; FireLeak; FdsDone].
+Proof.
+  unfold timeout_path, leak_path, timeout_fire, leak_fire. cbn.
+  repeat split; try (right; left; repeat split; reflexivity);
+    try (right; right; left; repeat split; reflexivity);
+    intuition discriminate.
+Qed.
+
+Example C03_ex_leak_history :
+  attempt_result false false (Exited 0) false (detect_leak 100 [(30, FdData); (60, FdEof)]) = Pass
+  /\ attempt_result false false (Exited 0) false (detect_leak 100 [(30, FdData); (160, FdEof)]) = Leak
+  /\ attempt_result false false (Exited 3) false (detect_leak 100 [(30, Classify.Req)]) = Fail None true
+  /\ open_at 100 [(30, FdData); (160, FdEof)] /\ ~ open_at 100 [(30, FdData); (60, FdEof)].
+Proof. repeat split; try (vm_compute; reflexivity). cbn. lia. cbn. lia. Qed.
